@@ -448,10 +448,10 @@ PEERS = ["reads", "reset", "close", "silent-cancel-one"]
 def plan(tier: str, seed: int) -> list[dict]:
     shards = []
     k = 0
-    reps = 4 if tier == "quick" else 40
+    reps = 4 if tier == "quick" else 400
     for api in APIS:
         for peer in PEERS:
-            shards.append({"seed": seed * 1000 + k, "api": api, "peer": peer, "reps": reps, "model": 300 if tier == "quick" else 8000, "dgram": 20 if tier == "quick" else 400})
+            shards.append({"seed": seed * 1000 + k, "api": api, "peer": peer, "reps": reps, "model": 300 if tier == "quick" else 40000, "dgram": 20 if tier == "quick" else 2000})
             k += 1
     return shards
 
